@@ -63,4 +63,25 @@ pub fn run(cx: &mut Ctx) {
             cb(&|| format!("seed {} qubits {} weight {}..={} denom {}", seed, q, minw, maxw, den), v);
         } }
     });
+    cx.check("equatorial_state_unit_vector", |cb| {
+        // EquatorialStabilizerStateBuilder: no inputs, `qubits` outputs, the same diagram for the same seed, and the state it denotes
+        // (relative to the library's tensor evaluator, as C11) has norm 1
+        use quizx::graph::GraphLike;
+        use quizx::tensor::ToTensor;
+        for q in 1usize..=5 { for seed in 0u64..(12 * crate::scale()) {
+            let res = (|| {
+                let g: quizx::vec_graph::Graph = guard(|| quizx::random_graph::EquatorialStabilizerStateBuilder::new().seed(seed).qubits(q).build())?;
+                let h: quizx::vec_graph::Graph = guard(|| quizx::random_graph::EquatorialStabilizerStateBuilder::new().seed(seed).qubits(q).build())?;
+                if g.inputs().len() != 0 || g.outputs().len() != q { return Err(format!("{} inputs, {} outputs", g.inputs().len(), g.outputs().len())); }
+                let (t, u) = (guard(|| g.to_tensorf())?, guard(|| h.to_tensorf())?);
+                if t.shape().len() != q { return Err(format!("tensor has {} axes", t.shape().len())); }
+                let mut norm2 = 0.0f64; let mut same = true;
+                for m in 0..1usize << q { let ix: Vec<usize> = (0..q).map(|i| m >> i & 1).collect(); let a: C = t[&ix[..]]; let b: C = u[&ix[..]]; norm2 += a.norm_sqr(); if (a - b).norm() > 1e-12 { same = false; } }
+                if !same { return Err("two builds with the same seed differ".to_string()); }
+                if (norm2 - 1.0).abs() > 1e-9 { return Err(format!("squared norm {}", norm2)); }
+                Ok(())
+            })();
+            cb(&|| format!("{} qubits, seed {}", q, seed), res);
+        } }
+    });
 }
